@@ -323,11 +323,30 @@ def run_lifecycle(ctx):
                 del batches[:]
                 churn = rng.random() < 0.5
                 maxN = N
+                # one run in five: the node is emptied for a while in mid-cycle (every tracked copy recorded removed, as when a
+                # transport disk is cleaned out) and its copies come back later
+                empty_at = rng.randint(1, max(1, iters - 2)) if it % 5 == 2 else None
+                emptied = {}
+                raised = None
                 for t in range(iters):
+                    if empty_at is not None and t == empty_at:
+                        emptied = {c.id: c.has_file for c in ArchiveFileCopy.select().where(ArchiveFileCopy.node == node)}
+                        ArchiveFileCopy.update(has_file="N").where(ArchiveFileCopy.node == node).execute()
+                    elif empty_at is not None and t == empty_at + 2:
+                        for cid, h in emptied.items():
+                            ArchiveFileCopy.update(has_file=h).where(ArchiveFileCopy.id == cid).execute()
                     un.reinit(StorageNode.get(id=node.id))          # once per main-loop iteration
                     un._updated = True
                     un._io_happened = rng.random() < 0.5       # I/O happened during this pass: the idle hook then queues a tidy-up
-                    un.update_idle()
+                    try:
+                        un.update_idle()
+                    except Exception as ex:  # noqa -- nothing above update_idle catches it: the daemon's main loop dies
+                        raised = f"{type(ex).__name__}: {ex}"
+                        ctx.violation(f"lifecycle:raised:k={k}", f"idle iteration {t + 1} on a node with auto_verify={k} raised {raised} "
+                                      f"({'the node had just been emptied' if empty_at is not None and t >= empty_at else 'table ' + str(N)}): "
+                                      f"auto-verification (and the daemon) stops", {"kind": "lifecycle", "N": N, "k": k, "iteration": t,
+                                                                                  "emptied_at": empty_at})
+                        break
                     item = un._queue.get(timeout=0.001)       # run what the idle update queued (tidy-up): the node is idle again
                     while item is not None:
                         item[0]()
@@ -342,6 +361,10 @@ def run_lifecycle(ctx):
                             f = ArchiveFile.create(acq=acq, name=f"x{t}", size_b=1, md5sum="0" * 32)
                             ArchiveFileCopy.create(file=f, node=node, has_file="Y", wants_file="Y")
                             maxN += 1
+                if empty_at is not None or raised:
+                    ctx.count(f"lifecycle:emptied:k={k}")
+                    ctx.case(("lifecycle-emptied", N, k, iters, empty_at), nontrivial=True)
+                    continue           # the cycle oracles below are for tables that exist throughout
                 if len(batches) != iters:
                     ctx.violation(f"lifecycle:skipped:k={k}", f"{iters} idle main-loop iterations on a node with auto_verify={k} handed out "
                                   f"{len(batches)} batches: auto-verification was skipped in {iters - len(batches)} of them",
